@@ -722,6 +722,47 @@ func (s *sandboxFacts) checkInheritance(r *Report, choke map[*ssa.Function]bool)
 			type use struct {
 				ok   bool
 				what string
+				ref  ssa.Instruction
+			}
+			// path-sensitive second opinion: no feasible path from the acquisition to the use
+			// avoids a good store of the flag into the acquired context (or a value it was
+			// merged into); two tests of one immutable value are taken consistently
+			aliases := map[ssa.Value]bool{acq: true}
+			for changed := true; changed; {
+				changed = false
+				for a := range aliases {
+					if a.Referrers() == nil {
+						continue
+					}
+					for _, ref := range *a.Referrers() {
+						if ph, ok := ref.(*ssa.Phi); ok && !aliases[ph] {
+							aliases[ph] = true
+							changed = true
+						}
+					}
+				}
+			}
+			acqInstr, _ := acq.(ssa.Instruction)
+			pathSafe := func(ref ssa.Instruction) bool {
+				if acqInstr == nil || ref == nil {
+					return false
+				}
+				found, _ := existsPathFromAvoiding(fn, acqInstr, ref, func(in ssa.Instruction) bool {
+					switch x := in.(type) {
+					case *ssa.Store:
+						if base, ok := fieldAddr(x.Addr, "RenderContext", "sandboxed"); ok && aliases[base] {
+							return goodFlag(x.Val, base, map[ssa.Value]bool{})
+						}
+					case ssa.CallInstruction:
+						for a := range aliases {
+							if enables(x, a) {
+								return true
+							}
+						}
+					}
+					return false
+				}, fl.edge)
+				return !found
 			}
 			var collect func(v ssa.Value, seen map[ssa.Value]bool) []use
 			collect = func(v ssa.Value, seen map[ssa.Value]bool) []use {
@@ -752,7 +793,16 @@ func (s *sandboxFacts) checkInheritance(r *Report, choke map[*ssa.Function]bool)
 									}
 									st = all
 								}
-								uses = append(uses, use{st, inner[0].what + " (after merging with another context at " + w.posOf(x.Pos()) + ")"})
+								if !st {
+									all := true
+									for _, iu := range inner {
+										if !iu.ok && !pathSafe(iu.ref) {
+											all = false
+										}
+									}
+									st = all
+								}
+								uses = append(uses, use{st, inner[0].what + " (after merging with another context at " + w.posOf(x.Pos()) + ")", inner[0].ref})
 							}
 						}
 						continue
@@ -774,7 +824,7 @@ func (s *sandboxFacts) checkInheritance(r *Report, choke map[*ssa.Function]bool)
 									uses = append(uses, collect(ld, seen)...)
 								}
 								if _, ok := ar.(*ssa.MakeClosure); ok {
-									uses = append(uses, use{fl.at(ar), "captured by a closure at " + w.posOf(ar.Pos())})
+									uses = append(uses, use{fl.at(ar) || pathSafe(ar), "captured by a closure at " + w.posOf(ar.Pos()), ar})
 								}
 							}
 							continue
@@ -809,7 +859,7 @@ func (s *sandboxFacts) checkInheritance(r *Report, choke map[*ssa.Function]bool)
 						}
 					}
 					if what != "" {
-						uses = append(uses, use{fl.at(ref), what + " at " + w.posOf(ref.Pos())})
+						uses = append(uses, use{fl.at(ref) || pathSafe(ref), what + " at " + w.posOf(ref.Pos()), ref})
 					}
 				}
 				return uses
